@@ -63,11 +63,21 @@ pub fn sparse_sdp(rng: &mut StdRng, integer: bool, inf_bound: bool) -> Problem {
         off += c.numel();
     }
     let mut q = vec![0.0; n];
+    let mut pmat = Csc::zeros(n, n);
     if !integer {
-        // planted strictly feasible primal-dual pair: b = A x0 + s0, q = -A' z0
+        // planted strictly feasible primal-dual pair: b = A x0 + s0, q = -(P x0 + A' z0)
         let x0: Vec<f64> = (0..n).map(|_| gen::normal(rng)).collect();
         for r in 0..m { b[r] = s0[r] + (0..n).map(|j| a[r][j] * x0[j]).sum::<f64>(); }
         for j in 0..n { q[j] = -(0..m).map(|r| a[r][j] * z0[r]).sum::<f64>(); }
+        // now and then a quadratic objective, handed over as an upper triangle or as the full symmetric matrix
+        if rng.gen::<f64>() < 0.4 {
+            let g: Vec<f64> = (0..n).map(|_| gen::normal(rng)).collect();
+            let mut pd = vec![vec![0.0; n]; n];
+            for i in 0..n { for j in 0..n { pd[i][j] = g[i] * g[j] + if i == j { 0.5 } else { 0.0 }; } }
+            for j in 0..n { q[j] -= (0..n).map(|i| pd[j][i] * x0[i]).sum::<f64>(); }
+            if rng.gen::<bool>() { for i in 0..n { for j in 0..i { pd[i][j] = 0.0; } } }
+            pmat = Csc::from_dense(&pd, n, n);
+        }
     } else {
         for j in 0..n { q[j] = (j + 1) as f64; }
     }
@@ -81,7 +91,7 @@ pub fn sparse_sdp(rng: &mut StdRng, integer: bool, inf_bound: bool) -> Problem {
     s.insert("chordal_decomposition_compact".into(), json!(rng.gen::<bool>()));
     s.insert("chordal_decomposition_merge_method".into(), json!(["none", "parent_child", "clique_graph"][rng.gen_range(0..3)]));
     s.insert("chordal_decomposition_complete_dual".into(), json!(rng.gen::<bool>()));
-    Problem { P: Csc::zeros(n, n), q, A: Csc::from_dense(&a, m, n), b, cones, settings: Value::Object(s), tag: "sdp+decomp".into() }
+    Problem { P: pmat, q, A: Csc::from_dense(&a, m, n), b, cones, settings: Value::Object(s), tag: "sdp+decomp".into() }
 }
 
 fn clique_verts(t: &CliqueTreeView, i: usize) -> (Vec<usize>, Vec<usize>, Option<usize>) {
